@@ -59,15 +59,17 @@ SpendTx == <<F(4), F(2), C(1, 0)>> \o TxIn(0) \o <<C(2, 0)>> \o TxOut(22) \o TxO
 \* header and nonce of cmpctblock4, whose short id list holds exactly that id (the sender fixes the siphash key by
 \* choosing the nonce and is free to grind transactions: a birthday search over ~2^24 txids).
 AllCmds == <<"version", "verack", "addr", "inv", "getdata", "notfound", "getblocks", "getheaders", "headers", "headers2",
-             "tx", "txo1", "txo2", "block", "block2", "cmpctblock", "cmpctblock2", "cmpctblock3", "cmpctblock4", "getblocktxn", "getblocktxn1", "getblocktxn3", "blocktxn",
+             "tx", "txo1", "txo2", "block", "block2", "cmpctblock", "cmpctblock2", "cmpctblock3", "cmpctblock4", "getblocktxn", "getblocktxn1", "getblocktxn3", "blocktxn", "blocktxn2", "idle",
              "ping", "pong", "feefilter", "sendcmpct",
              "sendheaders", "getaddr", "getmp", "getmpdone", "xauth", "authack", "filterload", "unknown", "frame">>
 CmdSet == {AllCmds[i] : i \in 1..Len(AllCmds)}
 Wire(c) == CASE c = "headers2" -> "headers" [] c = "block2" -> "block" [] c \in {"cmpctblock2", "cmpctblock3", "cmpctblock4"} -> "cmpctblock"
-             [] c \in {"txo1", "txo2"} -> "tx"
+             [] c \in {"txo1", "txo2"} -> "tx" [] c = "blocktxn2" -> "blocktxn"
              [] c \in {"getblocktxn1", "getblocktxn3"} -> "getblocktxn" [] OTHER -> c
 Orphans == {"headers2", "block2", "cmpctblock2"}
-ContextOnly == {"txo2", "cmpctblock4"}   \* same grammar as txo1 / cmpctblock: only the valid instance is of interest
+\* blocktxn2 names a block this connection never heard of; idle is no message at all: the peer stays silent while the
+\* node's own tick runs (the timers of tick.go: getheaders, getdata for announced blocks).
+ContextOnly == {"txo2", "cmpctblock4", "blocktxn2", "idle"}   \* same grammar as another instance: only the valid instance is of interest
 
 Grammar(c) ==
   CASE c = "version" -> <<F(4), F(8), F(8), F(26), F(26), F(8)>> \o LB(15) \o <<F(4), F(1)>>
@@ -89,7 +91,8 @@ Grammar(c) ==
     [] c = "getblocktxn" -> <<F(32), C(2, 0), V(0, 2), V(0, 2)>>
     [] c = "getblocktxn1" -> <<F(32), C(1, 0), V(0, 1)>>
     [] c = "getblocktxn3" -> <<F(32), C(3, 0), V(0, 4), V(1, 4), V(0, 4)>>       \* absolute 0, 2, 3
-    [] c = "blocktxn" -> <<F(32), C(1, 0)>> \o SpendTx
+    [] c \in {"blocktxn", "blocktxn2"} -> <<F(32), C(1, 0)>> \o SpendTx
+    [] c = "idle" -> << >>
     [] c \in {"ping", "pong", "feefilter", "unknown", "frame"} -> <<F(8)>>
     [] c = "sendcmpct" -> <<F(1), F(8)>>
     [] c = "getmp" -> <<C(2, 8), F(8), F(8)>>
@@ -132,6 +135,7 @@ VARIABLES alive,   \* the connection is not (being) closed
           addrd,   \* X.GetAddrDone
           ahr,     \* X.AllHeadersReceived
           bip,     \* a compact block collector of B1 waits for a blocktxn
+          gd,      \* B1 is in progress on this connection without a collector: the node asked for it with a plain getdata
           h1,      \* header of B1: "no" | "b2g" (BlocksToGet) | "got" (ReceivedBlocks)
           h2,      \* header of B2 is in BlocksToGet
           mp,      \* tx1 is in the mempool
@@ -141,15 +145,16 @@ VARIABLES alive,   \* the connection is not (being) closed
           order,   \* FALSE once MutexRcv was taken while c.Mutex was held
           out      \* outcome of the last Recv
 
-vars == <<alive, ver, score, cmpct, auth, addrd, ahr, bip, h1, h2, mp, o1, o2, npre, npost, held, order, out>>
+vars == <<alive, ver, score, cmpct, auth, addrd, ahr, bip, gd, h1, h2, mp, o1, o2, npre, npost, held, order, out>>
 
 Locks == {"c", "net", "rcv", "tx", "last", "cnt", "idx", "peers", "cfg", "friends", "extip", "cblk", "cache"}
 Outcomes == {"ok", "ignored", "penalised", "disconnected"}
 
 \* ------------------------------------------------------------------ lock programs
-\* ops: "+x" Lock, "-x" Unlock, "~x" Lock with a deferred Unlock, "!" panic (deferred unlocks still run), "." return
-OpSet == {t \o l : t \in {"+", "-", "~"}, l \in Locks} \cup {"!", "."}
-Tok == [o \in OpSet |-> IF o \in {"!", "."} THEN <<o, "">>
+\* ops: "+x" Lock, "-x" Unlock, "~x" Lock with a deferred Unlock, "!" panic (deferred unlocks still run), "." return,
+\*      "#" the goroutine blocks for ever
+OpSet == {t \o l : t \in {"+", "-", "~"}, l \in Locks} \cup {"!", ".", "#"}
+Tok == [o \in OpSet |-> IF o \in {"!", ".", "#"} THEN <<o, "">>
                         ELSE CHOOSE p \in {"+", "-", "~"} \X Locks : (p[1] \o p[2]) = o]
 
 RECURSIVE Exec(_, _, _, _, _)
@@ -161,6 +166,7 @@ Exec(ops, i, h, d, ord) ==      \* -> [held, order, panic]
          [] t = "-" -> Exec(ops, i + 1, h \ {x}, d, ord)
          [] t = "!" -> [held |-> h \ d, order |-> ord, panic |-> TRUE]
          [] t = "." -> [held |-> h \ d, order |-> ord, panic |-> FALSE]
+         [] t = "#" -> [held |-> h, order |-> ord, panic |-> FALSE]      \* stuck for ever (self-deadlock): nothing is released
 
 Ban == <<"+cnt", "-cnt", "+c", "-c">>         \* DoS(), Misbehave(), Disconnect(): CountSafe + c.Mutex
 Snd == <<"+c", "+cnt", "-cnt", "-c">>         \* SendRawMsg
@@ -224,6 +230,7 @@ DefectPaths(c) ==
   \cup (IF c = "cmpctblock" /\ "CmpctPrefilledIdx" \in Defects THEN {P(<<"~rcv", "+c", "-c", "!">>, "panic")} ELSE {}) \* cblk.go: idx range-checked before "+= exp"
   \cup (IF c = "cmpctblock" /\ "CmpctTxSize" \in Defects THEN {P(<<"~rcv", "+c", "-c", "!">>, "panic")} ELSE {})
   \cup (IF c = "getblocktxn" /\ "GetBlockTxnIdx" \in Defects THEN {P(<<"+cblk", "-cblk", "!">>, "panic")} ELSE {})
+  \cup (IF c = "blocktxn" /\ "BlkTxnNoColLock" \in Defects THEN {P(<<"~rcv", "+c", "#">>, "ok")} ELSE {})   \* Misbehave() called with c.Mutex still held
   \cup (IF c = "blocktxn" /\ "BlockTxnMissing" \in Defects THEN {P(<<"~rcv", "+c", "-c", "!">>, "panic")} ELSE {})
 
 \* Run()'s own epilogue after the loop ended (c.Mutex, then MutexRcv inside it in the current code)
@@ -233,10 +240,10 @@ Teardown == IF "TeardownLockOrder" \in Defects THEN <<"+c", "+rcv", "-rcv", "-c"
 \* ------------------------------------------------------------------ session
 Init ==
   /\ alive = TRUE /\ ver = FALSE /\ score = 0 /\ cmpct = 0 /\ auth = "no" /\ addrd = FALSE /\ ahr = FALSE
-  /\ bip = FALSE /\ h1 = "no" /\ h2 = FALSE /\ mp = FALSE /\ o1 = FALSE /\ o2 = FALSE /\ npre = 0 /\ npost = 0
+  /\ bip = FALSE /\ gd = FALSE /\ h1 = "no" /\ h2 = FALSE /\ mp = FALSE /\ o1 = FALSE /\ o2 = FALSE /\ npre = 0 /\ npost = 0
   /\ held = {} /\ order = TRUE /\ out = "ok"
 
-Same == UNCHANGED <<ver, cmpct, auth, addrd, ahr, bip, h1, h2, mp, o1, o2>>
+Same == UNCHANGED <<ver, cmpct, auth, addrd, ahr, bip, h1, h2, mp, o1, o2, gd>>
 
 \* applies a path: locks, outcome, score. pen = points added when the outcome is "penalised"
 Apply(p, pen) ==
@@ -272,7 +279,7 @@ RecvFrame(x) ==
 
 \* --- before the version message everything else only costs points
 RecvNoVer(x) ==
-  /\ x.cmd \notin {"frame", "version"} /\ ~ver
+  /\ x.cmd \notin {"frame", "version", "idle"} /\ ~ver
   /\ Count(x) /\ Same
   /\ Apply(P(<<"+c", "-c">> \o Ban, "penalised"), 100)
 
@@ -282,12 +289,21 @@ RecvVersionAgain(x) ==
   /\ Apply(P(<<"+c", "-c">> \o Ban, "penalised"), 100)
 
 \* --- a valid payload: the handler's success path and its effect on the session
+\* --- no message: OneConnection.Tick. With all headers received and B1 announced but not in progress it asks for the
+\*     block with a plain getdata (GetBlockData); whether the timers allow that right now is not modelled.
+RecvIdle(x) ==
+  /\ x.cmd = "idle"
+  /\ Count(x) /\ UNCHANGED <<ver, cmpct, auth, addrd, ahr, bip, h1, h2, mp, o1, o2>>
+  /\ \/ gd' = (gd \/ (ver /\ ahr /\ h1 = "b2g" /\ ~bip))
+     \/ gd' = gd
+  /\ Apply(P(<<"+c", "-c", "+c", "-c", "+rcv", "+c", "-c", "-rcv">> \o Snd, "ok"), 0)
+
 RecvValid(x) ==
-  /\ x.k = "valid" /\ x.cmd # "frame" /\ (ver \/ x.cmd = "version") /\ ~(ver /\ x.cmd = "version")
+  /\ x.k = "valid" /\ x.cmd \notin {"frame", "idle"} /\ (ver \/ x.cmd = "version") /\ ~(ver /\ x.cmd = "version")
   /\ Count(x)
   /\ LET c == x.cmd IN
      CASE c \in Orphans /\ h1 = "no" ->        \* the parent of B2 is unknown: the header does not connect (PH_STATUS_ERROR)
-            /\ UNCHANGED <<ver, cmpct, auth, addrd, bip, h1, h2, mp, o1, o2>>
+            /\ UNCHANGED <<ver, cmpct, auth, addrd, bip, h1, h2, mp, o1, o2, gd>>
             /\ ahr' = (IF c = "headers2" THEN TRUE ELSE IF c = "cmpctblock2" THEN FALSE ELSE ahr)
             /\ IF c = "block2" THEN Apply(P(<<"+rcv", "+c", "-c", "+idx", "-idx", "-rcv">>, "ok"), 0)
                ELSE IF c = "headers2" THEN Apply(P(<<"+c", "-c", "~rcv", "~idx">> \o Ban, "penalised"), 50)
@@ -295,52 +311,56 @@ RecvValid(x) ==
        [] c \in Orphans /\ h1 # "no" ->        \* B2 connects; what it does to the download bookkeeping is not modelled
             /\ Same
             /\ \E p \in ErrExits(Wire(c)) \cup {P(WF(Wire(c)), "ok")} : \E pen \in PenSet : Apply(p, pen)
-       [] c = "version" -> /\ ver' = TRUE /\ UNCHANGED <<cmpct, auth, addrd, ahr, bip, h1, h2, mp, o1, o2>>
+       [] c = "version" -> /\ ver' = TRUE /\ UNCHANGED <<cmpct, auth, addrd, ahr, bip, h1, h2, mp, o1, o2, gd>>
                            /\ Apply(P(WF(c), "ok"), 0)
-       [] c = "sendcmpct" -> /\ cmpct' = (IF cmpct < 2 THEN 2 ELSE cmpct) /\ UNCHANGED <<ver, auth, addrd, ahr, bip, h1, h2, mp, o1, o2>>
+       [] c = "sendcmpct" -> /\ cmpct' = (IF cmpct < 2 THEN 2 ELSE cmpct) /\ UNCHANGED <<ver, auth, addrd, ahr, bip, h1, h2, mp, o1, o2, gd>>
                              /\ Apply(P(WF(c), "ok"), 0)
-       [] c = "getaddr" -> /\ addrd' = TRUE /\ UNCHANGED <<ver, cmpct, auth, ahr, bip, h1, h2, mp, o1, o2>>
+       [] c = "getaddr" -> /\ addrd' = TRUE /\ UNCHANGED <<ver, cmpct, auth, ahr, bip, h1, h2, mp, o1, o2, gd>>
                            /\ IF addrd THEN Apply(P(<<"+c", "-c">> \o Ban, "penalised"), 50) ELSE Apply(P(WF(c), "ok"), 0)
-       [] c = "xauth" -> /\ UNCHANGED <<ver, cmpct, addrd, ahr, bip, h1, h2, mp, o1, o2>>
+       [] c = "xauth" -> /\ UNCHANGED <<ver, cmpct, addrd, ahr, bip, h1, h2, mp, o1, o2, gd>>
                          /\ IF auth # "no" THEN auth' = auth /\ Apply(P(Ban, "disconnected"), 0)      \* one auth message per connection
                             ELSE auth' = "ok" /\ Apply(P(WF(c), "ok"), 0)
        [] c = "authack" -> /\ Same /\ Apply(P(<<"+c", "-c">>, "disconnected"), 0)                      \* unsigned authack ends Run()
        [] c = "filterload" -> /\ Same /\ Apply(P(Ban, "disconnected"), 0)
-       [] c = "inv" -> /\ ahr' = FALSE /\ UNCHANGED <<ver, cmpct, auth, addrd, bip, h1, h2, mp, o1, o2>>   \* unknown block: ReceiveHeadersNow
+       [] c = "inv" -> /\ ahr' = FALSE /\ UNCHANGED <<ver, cmpct, auth, addrd, bip, h1, h2, mp, o1, o2, gd>>   \* unknown block: ReceiveHeadersNow
                        /\ Apply(P(WF(c), "ok"), 0)
-       [] c = "tx" -> /\ mp' = TRUE /\ UNCHANGED <<ver, cmpct, auth, addrd, ahr, bip, h1, h2, o1, o2>>
+       [] c = "tx" -> /\ mp' = TRUE /\ UNCHANGED <<ver, cmpct, auth, addrd, ahr, bip, h1, h2, o1, o2, gd>>
                       /\ Apply(P(WF(c), "ok"), 0)
-       [] c = "headers" -> /\ UNCHANGED <<ver, cmpct, auth, addrd, bip, mp, o1, o2>>
+       [] c = "headers" -> /\ UNCHANGED <<ver, cmpct, auth, addrd, bip, mp, o1, o2, gd>>
                            /\ h1' = (IF h1 = "no" THEN "b2g" ELSE h1) /\ h2' = TRUE
                            /\ ahr' = (IF h1 # "no" /\ h2 THEN TRUE ELSE ahr)       \* no new header: AllHeadersReceived
                            /\ Apply(P(WF(c), "ok"), 0)
        [] c = "block" -> /\ UNCHANGED <<ver, cmpct, auth, addrd, ahr, h2, mp, o1, o2>>
-                         /\ h1' = "got" /\ bip' = FALSE          \* netBlockReceived drops the entry of GetBlockInProgress
+                         /\ h1' = "got" /\ bip' = FALSE /\ gd' = FALSE     \* netBlockReceived drops the entry of GetBlockInProgress
                          /\ Apply(P(WF(c), "ok"), 0)
        [] c = "cmpctblock" -> /\ UNCHANGED <<ver, cmpct, auth, addrd, ahr, h2, mp, o1, o2>>
-                              /\ IF h1 = "got" THEN h1' = h1 /\ bip' = bip
-                                 ELSE IF mp /\ cmpct = 2 THEN h1' = "got" /\ bip' = bip   \* every transaction found by its (wtxid) short id: complete
-                                 ELSE h1' = "b2g" /\ bip' = TRUE               \* getblocktxn sent, collector waits
+                              /\ IF h1 = "got" THEN h1' = h1 /\ bip' = bip /\ gd' = gd
+                                 ELSE IF mp /\ cmpct = 2 THEN h1' = "got" /\ bip' = bip /\ gd' = gd   \* every transaction found by its (wtxid) short id: complete
+                                 ELSE h1' = "b2g" /\ bip' = TRUE /\ gd' = FALSE    \* getblocktxn sent, the collector replaces a plain entry
                               /\ Apply(P(WF(c), "ok"), 0)
        [] c \in {"txo1", "txo2"} ->             \* input unknown: TX_REJECTED_NO_TXOU, kept while it waits for the input
-            /\ UNCHANGED <<ver, cmpct, auth, addrd, ahr, bip, h1, h2, mp>>
+            /\ UNCHANGED <<ver, cmpct, auth, addrd, ahr, bip, h1, h2, mp, gd>>
             /\ o1' = (o1 \/ c = "txo1") /\ o2' = (o2 \/ c = "txo2")
             /\ Apply(P(WF("tx") \o Snd, "ok"), 0)
        [] c = "cmpctblock3" ->                  \* every transaction prefilled: the block is complete at once
-            /\ UNCHANGED <<ver, cmpct, auth, addrd, ahr, bip, h2, mp, o1, o2>>
+            /\ UNCHANGED <<ver, cmpct, auth, addrd, ahr, bip, h2, mp, o1, o2, gd>>
             /\ h1' = "got"
             /\ Apply(P(WF("cmpctblock"), "ok"), 0)
        [] c = "cmpctblock4" ->
             /\ UNCHANGED <<ver, cmpct, auth, addrd, ahr, h2, mp, o1, o2>>
             /\ h1' = (IF h1 = "no" THEN "b2g" ELSE h1)
             /\ bip' = (IF h1 # "got" /\ ~o1 /\ ~o2 THEN TRUE ELSE bip)      \* nothing matches the short id: getblocktxn
+            /\ gd' = (IF h1 # "got" /\ ~o1 /\ ~o2 THEN FALSE ELSE gd)
             /\ IF h1 # "got" /\ o1 /\ o2          \* both orphans match the one short id: "Same short ID - abort"
                THEN IF "CmpctSameSid" \in Defects THEN Apply(P(<<"~rcv", "+c", "-c", "+tx", ".">>, "ok"), 0)
                     ELSE Apply(P(<<"~rcv", "+c", "-c", "+tx", "-tx">>, "ok"), 0)
                ELSE Apply(P(WF("cmpctblock"), "ok"), 0)    \* one orphan matches: assembled, merkle root differs, dropped
-       [] c = "blocktxn" -> /\ UNCHANGED <<ver, cmpct, auth, addrd, ahr, h2, mp, o1, o2>>
+       [] c = "blocktxn" -> /\ UNCHANGED <<ver, cmpct, auth, addrd, ahr, h2, mp, o1, o2, gd>>
                             /\ IF bip THEN bip' = FALSE /\ h1' = (IF h1 = "got" THEN h1 ELSE "got") /\ Apply(P(WF(c), "ok"), 0)
-                               ELSE bip' = bip /\ h1' = h1 /\ Apply(P(<<"~rcv", "+c", "-c">> \o Ban, "penalised"), 100)
+                               ELSE /\ bip' = bip /\ h1' = h1       \* no entry (BlkTxnErrBip) or an entry without collector (BlkTxnNoCOL)
+                                    /\ IF gd /\ "BlkTxnNoColLock" \in Defects THEN Apply(P(<<"~rcv", "+c", "#">>, "ok"), 0)
+                                       ELSE Apply(P(<<"~rcv", "+c", "-c">> \o Ban, "penalised"), 100)
+       [] c = "blocktxn2" -> /\ Same /\ Apply(P(<<"~rcv", "+c", "-c">> \o Ban, "penalised"), 100)
        [] c = "getmp" -> /\ Same /\ (IF auth = "ok" THEN Apply(P(WF(c), "ok"), 0) ELSE Apply(P(<< >>, "ignored"), 0))
        [] c \in {"verack", "unknown"} -> /\ Same /\ Apply(P(<< >>, "ignored"), 0)
        [] OTHER -> /\ Same /\ Apply(P(WF(Wire(c)), "ok"), 0)
@@ -350,14 +370,14 @@ RecvValid(x) ==
 \*     change as for the valid payload; the model keeps the state and the replay driver tolerates either.
 RecvMalformed(x) ==
   /\ x.k # "valid" /\ x.cmd # "frame" /\ (ver \/ x.cmd = "version") /\ ~(ver /\ x.cmd = "version")
-  /\ Count(x) /\ UNCHANGED <<cmpct, auth, addrd, ahr, bip, h1, h2, mp, o1, o2>>
+  /\ Count(x) /\ UNCHANGED <<cmpct, auth, addrd, ahr, bip, h1, h2, mp, o1, o2, gd>>
   /\ \E p \in ErrExits(Wire(x.cmd)) \cup DefectPaths(Wire(x.cmd)) \cup {P(WF(Wire(x.cmd)), "ok")} :
         /\ \E pen \in PenSet : Apply(p, pen)
         /\ ver' = (IF x.cmd = "version" /\ p.out = "ok" THEN TRUE ELSE ver)
 
 Recv(x) ==
   /\ alive /\ held = {} /\ Budget
-  /\ \/ RecvFrame(x) \/ RecvNoVer(x) \/ RecvVersionAgain(x) \/ RecvValid(x) \/ RecvMalformed(x)
+  /\ \/ RecvFrame(x) \/ RecvNoVer(x) \/ RecvVersionAgain(x) \/ RecvIdle(x) \/ RecvValid(x) \/ RecvMalformed(x)
 
 Next == \E x \in Alphabet : Recv(x)
 
@@ -367,11 +387,12 @@ Spec == Init /\ [][Next]_vars
 TypeOK ==
   /\ alive \in BOOLEAN /\ ver \in BOOLEAN /\ score \in 0..(BanScore + 200) /\ cmpct \in 0..2
   /\ auth \in {"no", "got", "ok"} /\ addrd \in BOOLEAN /\ ahr \in BOOLEAN /\ bip \in BOOLEAN
-  /\ h1 \in {"no", "b2g", "got"} /\ h2 \in BOOLEAN /\ mp \in BOOLEAN /\ o1 \in BOOLEAN /\ o2 \in BOOLEAN
+  /\ h1 \in {"no", "b2g", "got"} /\ h2 \in BOOLEAN /\ mp \in BOOLEAN /\ o1 \in BOOLEAN /\ o2 \in BOOLEAN /\ gd \in BOOLEAN
   /\ held \subseteq Locks /\ order \in BOOLEAN /\ out \in Outcomes \cup {"panic"}
 
 HandlerReturnsClean == held = {} /\ out \in Outcomes
 LockOrder == order
 BannedIsDead == score >= BanScore => ~alive
-CollectorNeedsHeader == bip => h1 # "no"
+CollectorNeedsHeader == (bip \/ gd) => h1 # "no"
+OneEntryPerBlock == ~(bip /\ gd)
 =============================================================================
